@@ -208,7 +208,10 @@ def check_l1(run: Run, prog: Program) -> dict[str, Ledgers]:
     from ._c15_util import anchors
 
     anc = anchors(prog)
+    split_role = anc.roles.get("bda.split")
     for fname, role in zip(ALLOC_FUNCS, ("bda.core", "bda.greedy", "bda.split")):
+        if role == "bda.greedy" and anc.roles.get(role) is None:
+            continue   # the top-up is part of the core routine: its pairs are decided there
         fn = _view_of(prog, anc.get(role))
         run.analysed(fn.qual)
         lg = Ledgers(fn)
@@ -252,6 +255,21 @@ def check_l1(run: Run, prog: Program) -> dict[str, Ledgers]:
             for name, delta in upd.items():
                 want = cell_sum if name in lg.mirrors else -cell_sum
                 role = "mirror" if name in lg.mirrors else "complement"
+                if delta != want and name in lg.complements and split_role is not None:
+                    # `remainder += <residual returned by the per-inverter split>`: the cells changed inside the
+                    # split, whose own pairing and residual are decided there and under L3
+                    l1c = CFG(fn.node, fn.file)
+                    l1p = Prov(prog, fn, l1c)
+                    extra = Poly()
+                    for st in stmts[name]:
+                        sites = l1c.nodes_of(st)
+                        nu = lg.name_update(st)
+                        if sites and nu is not None and isinstance(st, ast.AugAssign) and isinstance(st.op, ast.Add):
+                            t = l1p.term(sites[0], st.value)
+                            a = t.as_atom()
+                            if a in l1p.calls and l1p.calls[a][0] == split_role.name and l1p.calls[a][1] == 1:
+                                extra = extra + nu[1]
+                    delta = delta - extra
                 for s in stmts[name][:1]:
                     run.check(delta == want, "C01.L1", fn.qual, s,
                               f"{role} ledger `{name}` changes by `{delta!r}` in this suite while the "
@@ -344,13 +362,13 @@ def check_l2(run: Run, prog: Program, ledgers: dict[str, Ledgers]) -> None:
             if not dec_nodes:
                 continue
             # innermost loop header containing the decrements
-            loops = [h for h in cfg.nodes if h.kind in ("for", "while") and all(
-                d in cfg.reachable([m for m, lab in cfg.succ[h.id] if lab in ("iter", "true")],
-                                   avoid=[h.id]) for d in dec_nodes)]
+            bodies = {h.id: _loop_body(cfg, h.id) for h in cfg.nodes if h.kind in ("for", "while")}
+            # updates outside every loop (e.g. a residual handed over afterwards) are not decrement loops
+            dec_nodes = [d for d in dec_nodes if any(d in b for b in bodies.values())]
+            loops = [h for h in cfg.nodes if h.id in bodies and dec_nodes and all(d in bodies[h.id] for d in dec_nodes)]
             if not loops:
                 continue
-            inner = min(loops, key=lambda h: len(cfg.reachable(
-                [m for m, lab in cfg.succ[h.id] if lab in ("iter", "true")], avoid=[h.id])))
+            inner = min(loops, key=lambda h: len(bodies[h.id]))
             after = [m for m, lab in cfg.succ[inner.id] if lab in ("done", "false", "break")]
             # walk forward from loop exit until the name is overwritten; is it read?
             read = False
@@ -366,7 +384,10 @@ def check_l2(run: Run, prog: Program, ledgers: dict[str, Ledgers]) -> None:
                     read = True
                     break
                 if any(u(w) == name for w in node_writes(cfg, x)) and not _reads(cfg, x, name):
-                    continue  # overwritten: this path's residual is dead
+                    nu2 = lg.name_update(node.ast) if node.kind == "stmt" and node.ast is not None else None  # type: ignore[arg-type]
+                    if nu2 is None or nu2[0] != name:
+                        continue  # overwritten: this path's residual is dead
+                    # `L += e` keeps the residual in L: go on
                 for m, lab in cfg.succ[x]:
                     if not lab.startswith("exc:"):
                         stack.append(m)
@@ -378,6 +399,13 @@ def check_l2(run: Run, prog: Program, ledgers: dict[str, Ledgers]) -> None:
                       file=fn.file, instance=f"{fn.qual}: residual of `{name}` is consumed after its loop")
     if n < 2 and not run.violations:
         raise AnalysisError(f"C01.L2: only {n} complement-ledger loops found")
+
+
+def _loop_body(cfg: CFG, header: int) -> set[int]:
+    """Nodes of one loop: reachable from the body's entry without passing the header and without
+    leaving through `break` (what follows a break belongs to the code after the loop)."""
+    return cfg.reachable([m for m, lab in cfg.succ[header] if lab in ("iter", "true")], avoid=[header],
+                         edge_ok=lambda _a, _b, lab: lab != "break")
 
 
 def _reads(cfg: CFG, nid: int, name: str) -> bool:
@@ -547,8 +575,10 @@ def check_l3(run: Run, prog: Program, ledgers: dict[str, Ledgers]) -> None:
         raise AnalysisError(f"{fn.qual}: no DistributionResult return found")
     if len(rets) == len(all_rets):
         run.ok("C01.L3", f"{fn.qual}: every return builds a DistributionResult from cells and remainder")
-    greedy_fn, split_fn = anc.get("bda.greedy"), anc.get("bda.split")
-    greedy_name, split_name = greedy_fn.name, split_fn.name
+    # the top-up may be a callee (role bda.greedy) or part of this routine (inlined): then its residual
+    # is a complement ledger of this routine itself
+    greedy_fn, split_fn = anc.roles.get("bda.greedy"), anc.get("bda.split")
+    greedy_name, split_name = (greedy_fn.name if greedy_fn is not None else "<top-up inlined>"), split_fn.name
     n_final = 0
     split_has_residual = False
     for r in rets:
@@ -580,9 +610,14 @@ def check_l3(run: Run, prog: Program, ledgers: dict[str, Ledgers]) -> None:
         # plus (once) the residual of the per-inverter split -- and nothing else
         atoms = {}
         shape_ok = True
+        own: list[str] = []   # complement ledgers of this routine (inlined top-up)
         for mono, coeff in rem_t.terms.items():
             if len(mono) == 1 and mono[0][1] == 1 and coeff == 1 and mono[0][0] in pv.calls:
                 atoms[mono[0][0]] = pv.calls[mono[0][0]]
+            elif greedy_fn is None and len(mono) == 1 and mono[0][1] == 1 and coeff == 1 \
+                    and mono[0][0] in lg.complements:
+                own.append(mono[0][0])
+                atoms[mono[0][0]] = ("<top-up inlined>", 1, {})
             else:
                 shape_ok = False
         g = [a for a, (callee, idx, _args) in atoms.items() if callee == greedy_name and idx == 1]
@@ -596,8 +631,16 @@ def check_l3(run: Run, prog: Program, ledgers: dict[str, Ledgers]) -> None:
         started = False
         started_with: str | None = None
         if len(g) == 1:
-            gp = method_params_of(greedy_fn)
-            arg = atoms[g[0]][2].get(gp[1]) if len(gp) > 1 else None
+            if greedy_fn is not None:
+                gp = method_params_of(greedy_fn)
+                arg = atoms[g[0]][2].get(gp[1]) if len(gp) > 1 else None
+            else:
+                # the ledger's only plain definition is what the top-up starts from
+                plain0 = [st for st in body_walk(fn.node) if isinstance(st, (ast.Assign, ast.AnnAssign))
+                          and getattr(st, "value", None) is not None and any(u(w) == g[0] for w in _targets(st))
+                          and lg.name_update(st) is None]
+                s0 = cfg.nodes_of(plain0[0]) if len(plain0) == 1 else []
+                arg = pv.term(s0[0], plain0[0].value) if s0 else None  # type: ignore[union-attr]
             started_with = next((m for m in sorted(lg.mirrors)
                                  if arg is not None and arg == Poly.atom(request) - Poly.atom(m)), None)
             started = started_with is not None
@@ -943,6 +986,8 @@ def check_sign(run: Run, prog: Program) -> None:
     def table_for(flag_value: bool) -> dict[str, list[tuple[ast.AST, ast.AST]]]:
         import copy
 
+        from ..engine.normalize import _is_pure as nz_is_pure
+
         out: dict[str, list[tuple[ast.AST, ast.AST]]] = {}
         env: dict[str, ast.AST] = {}
 
@@ -968,9 +1013,8 @@ def check_sign(run: Run, prog: Program) -> None:
                 for t, x in zip(tgt.elts, v.elts):
                     assign(t, x, st)
             elif isinstance(tgt, ast.Name):
-                if not any(isinstance(x, (ast.Dict, ast.List, ast.Set, ast.DictComp, ast.ListComp, ast.SetComp,
-                                          ast.GeneratorExp, ast.Call, ast.Await)) for x in ast.walk(v)):
-                    env[tgt.id] = v   # a pure alias / tuple of reads
+                if nz_is_pure(v) and not any(isinstance(x, ast.Await) for x in ast.walk(v)):
+                    env[tgt.id] = v   # a pure value (reads, min/max, arithmetic): no fresh container
                 else:
                     env.pop(tgt.id, None)
             elif isinstance(tgt, ast.Subscript):
@@ -1141,7 +1185,9 @@ def check_b(run: Run, prog: Program) -> None:
     sd0 = anc.get("bm.send")
     calls = find_calls(fn.node, lambda c: method_call(c, "self", sd0.name))
     ok = len(calls) == 1
-    if ok:
+    if sd0.qual == fn.qual:
+        ok = True     # the sending routine is part of this function: it works on the parameter itself
+    elif ok:
         args = bound_args(calls[0], method_params(sd0), f"{fn.qual}: self.{sd0.name}(...)")
         ok = u(args.get(typed(sd0, "DistributionResult", "distribution"))) == dist
     run.check(ok, "C01.B", fn.qual, f"self.{sd0.name}(<the computed distribution>, ...)",
